@@ -23,6 +23,9 @@ CHECKS = {
  "C16": dict(technique="model-based property testing (proptest): reference definition-level dependency graph (SCCs, scope order) vs reported diagnostics",
              text="Generated-input search over dependency graphs spread across files; oracle is the model's definition-level graph: reported paths must be real closed chains, cyclic SCCs must be reported, scope warnings must equal the model set, reports must be stable under recomputation. Exploration only.",
              note="trusted: reference model (model.rs); Tarjan SCC in the harness", ref="DESIGN.md 4 C16", engine="vengine"),
+ "C08": dict(technique="metamorphic property testing (proptest): observable snapshot invariant under permutations of the per-file analysis order",
+             text="Generated-input search over workspaces with colliding names; oracle is equality of the full observable snapshot across analysis orders on fresh indexes. Exploration only.",
+             note="trusted: the claim (read from scanner.rs) that the scan's schedule reaches the index only through per-file analysis order and DashMap-op interleaving (the latter is C09's)", ref="DESIGN.md 4 C08", engine="vengine"),
 }
 PENDING = {
 }
